@@ -236,6 +236,11 @@ var (
 	viaHTTP = false
 	// fillers: further providers that the first source always lists
 	fillers = 0
+	// observeReadOnly: after every operation of a sequence the cache's
+	// read-only observers (Len, List) are called; what they return is not
+	// judged (Len's count is not part of the property), but a read-only call
+	// must leave everything that follows as it would have been without it
+	observeReadOnly = false
 )
 
 // alphabet3: the third source's own operations and a reduced set of the
@@ -429,6 +434,10 @@ func runSequence(t *testing.T, seq []op) (v *violation) {
 			if v != nil {
 				return
 			}
+			if observeReadOnly && i > 0 {
+				pc.Len()
+				pc.List()
+			}
 			at := fmt.Sprintf("after [%s]", seqName(seq[:i+1]))
 			switch o.kind {
 			case "set":
@@ -602,7 +611,7 @@ func mustParse(s string) time.Time {
 
 func TestCheck(t *testing.T) {
 	r := vp.New("C06", "model_checking",
-		"every sequence of <= depth operations over the alphabet {per-source content changes of provider P (appear, advance, regress on the other source, disappear, without time) and Q, source failure toggles, Refresh, Refresh cancelled while source 0 / source 1 is being read, Refresh overlapped by a second Refresh issued inside a source call, Get of P / Q / a never-reported provider, List, clock advances of ttl/2 and ttl+1s}, each run on a fresh real ProviderCache with two fake sources inside a synctest bubble (virtual clock), compared after every step with a reference model (freshest record ever handed to the cache per provider, first-unreported time, negative entries, Fetch call counts); plus a lifecycle layer of macro steps (change what the sources report for one provider, let 0 / ttl/2 / ttl+1s pass, Refresh): every sequence of 6 (quick) / 7 (thorough) macro steps with one source and of 4 / 5 with two sources, which reaches appear - disappear - reappear - expire histories of 15-25 flat operations; and the flat sequences once more, one operation shallower, with the three advertisement times rendered with a zone offset, in UTC and with fractional seconds, so that the strings sort in the opposite order of the instants; the same depth once more with three sources (alphabet: the third source's content changes and failure, refreshes cancelled while the second / the third source is being read, Get, clock advance) and with the two-source alphabet on a cache constructed with preload, and on one with the automatic-refresh interval set to a value that never falls due (everything must be as with the interval off), and with every source behind the library's own HTTP source (pcache.WithSourceURL; an in-memory server per source), the last three also with the lifecycle layer one / two macro steps shallower (appear - disappear - expire histories). states = distinct sequences; transitions = operations executed; traces = sequences executed on the real cache. Every Get is followed by a GetResults of the same provider, which has to agree with it (a result list led by the provider, or nothing) without asking a source; providers that have just gone from the listing are looked up too. A last pass repeats the alphabet and the lifecycles with three further providers that the first source always lists (the update map is then not merged at every refresh).",
+		"every sequence of <= depth operations over the alphabet {per-source content changes of provider P (appear, advance, regress on the other source, disappear, without time) and Q, source failure toggles, Refresh, Refresh cancelled while source 0 / source 1 is being read, Refresh overlapped by a second Refresh issued inside a source call, Get of P / Q / a never-reported provider, List, clock advances of ttl/2 and ttl+1s}, each run on a fresh real ProviderCache with two fake sources inside a synctest bubble (virtual clock), compared after every step with a reference model (freshest record ever handed to the cache per provider, first-unreported time, negative entries, Fetch call counts); plus a lifecycle layer of macro steps (change what the sources report for one provider, let 0 / ttl/2 / ttl+1s pass, Refresh): every sequence of 6 (quick) / 7 (thorough) macro steps with one source and of 4 / 5 with two sources, which reaches appear - disappear - reappear - expire histories of 15-25 flat operations; and the flat sequences once more, one operation shallower, with the three advertisement times rendered with a zone offset, in UTC and with fractional seconds, so that the strings sort in the opposite order of the instants; the same depth once more with three sources (alphabet: the third source's content changes and failure, refreshes cancelled while the second / the third source is being read, Get, clock advance) and with the two-source alphabet on a cache constructed with preload, and on one with the automatic-refresh interval set to a value that never falls due (everything must be as with the interval off), and with every source behind the library's own HTTP source (pcache.WithSourceURL; an in-memory server per source), the last three also with the lifecycle layer one / two macro steps shallower (appear - disappear - expire histories). states = distinct sequences; transitions = operations executed; traces = sequences executed on the real cache. Every Get is followed by a GetResults of the same provider, which has to agree with it (a result list led by the provider, or nothing) without asking a source; providers that have just gone from the listing are looked up too. A last pass repeats the alphabet and the lifecycles with three further providers that the first source always lists (the update map is then not merged at every refresh), and once more with the read-only observers Len and List called between the operations of every sequence (their results are not judged; what follows must be as without them).",
 		"reference model is the oracle (trusted; written from the statement); nothing is asserted right after a refresh that returned an error, only after the next successful one",
 		"expiry is asserted only in histories in which every source responded in every refresh since the provider was last reported",
 		"records are compared by advertisement time, not identity (equal times are not ordered by the statement)",
@@ -712,6 +721,14 @@ func TestCheck(t *testing.T) {
 	rec(nil)
 	lifecycle(t, r, thorough, 1)
 	fillers = 0
+	// eighth pass: the read-only observers Len and List called between the
+	// operations of every sequence
+	observeReadOnly, keyPrefix = true, "observed-between-operations|"
+	depth++ // at the depth of the first pass
+	rec(nil)
+	depth--
+	lifecycle(t, r, thorough, 2)
+	observeReadOnly = false
 	nSources, preload, refreshInterval, viaHTTP, keyPrefix = 2, false, 0, false, ""
 	t.Logf("violations: %d", r.Violations())
 }
